@@ -149,6 +149,13 @@ def _symbolic_run(contract: Contract, case, ctx):
             out = contract.call(S, case, inp)
         except (EngineError, PathAbort, RecursionError, Budget):
             raise
+        except TypeError as e:
+            # a symbolic scalar reached code that needs a machine number: outside the engine, not an outcome
+            msg = str(e)
+            if "SymReal" in msg or "SymBool" in msg or "SymComplex" in msg or "unhashable type: 'float'" in msg:
+                raise EngineError(f"silent concretisation: {msg}\n{traceback.format_exc(limit=8)}") from e
+            out = Raised(e)
+            ctx.ghost["_tb"] = traceback.format_exc(limit=6)
         except Exception as e:
             out = Raised(e)
             ctx.ghost["_tb"] = traceback.format_exc(limit=6)
@@ -414,6 +421,12 @@ def run_job(job):
     except EngineError as e:
         res["status"] = "undecided"
         res["error"] = f"EngineError: {e}\n{traceback.format_exc(limit=8)}"
+        # undecided symbolically: still evaluate the contract natively on seeded inputs (bounded stand-in);
+        # a native failure is a violation with a failing input, a native pass leaves the job undecided
+        try:
+            _native_fallback(contract, case, res, rng)
+        except Exception as e2:  # pragma: no cover
+            res["error"] += f"\nnative fallback failed: {type(e2).__name__}: {e2}"
     except Exception as e:
         res["status"] = "crash"
         res["error"] = f"{type(e).__name__}: {e}\n{traceback.format_exc(limit=12)}"
@@ -421,6 +434,38 @@ def run_job(job):
         sym.CUR = None
         res["wall_s"] = round(time.time() - t_start, 3)
     return res
+
+
+def _native_fallback(contract, case, res, rng, tries=6):
+    cid = contract.case_id(case)
+    for k in range(tries):
+        try:
+            r, detail, CS = native_replay(contract, case, {}, rng=rng)
+        except PreconditionFailed:
+            continue
+        if r is None:
+            continue
+        failed = [n for n, ok in r if not ok]
+        res.setdefault("native_fallback_runs", 0)
+        res["native_fallback_runs"] += 1
+        if failed:
+            full = f"{contract.prop}.{contract.name}.{failed[0]}"
+            res["violations"].append(
+                {
+                    "property": contract.prop,
+                    "obligation": full,
+                    "case": cid,
+                    "function": contract.target,
+                    "solver": "symbolic run undecided (engine limit); contract evaluated natively on a seeded input (bounded stand-in)",
+                    "reproduced": True,
+                    "env": {n: str(v) for n, v in CS.used.items()},
+                    "native": detail,
+                    "failed_natively": failed,
+                    "attempts": [{"input": f"seeded#{k}", "failed_obligations": failed}],
+                    "kind": "bounded",
+                }
+            )
+            return
 
 
 def _discharge_with_model(name, hyps, goal, timeout, axioms, want_smt2=False, psolver=None, _depth=0):
